@@ -549,6 +549,9 @@ func scenarios(t *testing.T) []scenario {
 		add(cache, 0, 1, []op{S(1), F}, []op{F, S(2)})
 		add(cache, 0, 1, []op{S(1)}, []op{C, F})
 		add(cache, 0, 2, []op{S(1)}, []op{F, S(2)})
+		if cache == "immutable" {
+			add(cache, 0, 2, []op{S(1)}, []op{C, F}) // CleanEntry overtaken by a complete Store needs two deviations
+		}
 		if ev.Thorough() {
 			add(cache, 0, 2, []op{S(1)}, []op{F})
 			add(cache, 0, 2, []op{S(1)}, []op{S(2)})
